@@ -316,6 +316,18 @@ def proof_state(prop=None, tie_modules=(), force=False):
         if bad:
             st.update(ok=False, stage_failed=st["stage_failed"] or "audit-axioms")
             st["broken"].append("theorems not checked: %s" % bad[:10])
+        if os.environ.get("VERIF_TIER") == "thorough" and prop is not None and st["ok"]:
+            # independent re-check of the compiled modules that carry this property's theorems
+            mods = sorted({t["module"] for t in mine} | set(m for m in tie_modules if m.startswith("FparserModel.")))
+            t1 = time.time()
+            try:
+                r = subprocess.run(["lake", "env", "leanchecker"] + mods, cwd=LEAN, capture_output=True, text=True, timeout=3000)
+                st["leanchecker"] = {"modules": len(mods), "exit": r.returncode, "seconds": round(time.time() - t1, 1)}
+                if r.returncode != 0:
+                    st.update(ok=False, stage_failed="leanchecker")
+                    st["broken"].append("leanchecker rejects: %s" % (r.stdout + r.stderr)[-600:])
+            except subprocess.TimeoutExpired:
+                st["leanchecker"] = {"modules": len(mods), "exit": "timeout"}
     st["wall_s"] = time.time() - t0
     _proof_cache[key] = st
     return st
